@@ -15,20 +15,47 @@ RULES = {
 }
 
 
-def run(ctx):
-    for k, v in RULES.items():
-        ctx.rule(k, v)
-    files = A.load(ctx, [BUCKET, INTERNAL, CTRL])
+def check_lease_refresh(ctx, files, rid):
+    """every path of forward_append that reaches the append has executed update_leases().await before it"""
+    fa = files[INTERNAL].fn("forward_append")
+    ctx.saw_fn("NodeController::forward_append", INTERNAL, len(list(A.walk(fa["body"]))))
+    try:
+        paths = A.block_paths(fa["body"])
+    except A.TooManyPaths:
+        ctx.violate(rid, "NodeController::forward_append", "too-many-paths", INTERNAL, fa["line"], "forward_append has too many paths to enumerate: fail closed")
+        return
+    n = 0
+    bad = None
+    for p in paths:
+        seen_refresh = False
+        for k, node in p.events:
+            if k == "mcall" and A.is_mcall(node, "update_leases") and A.text(node["recv"]) == "self":
+                seen_refresh = True
+            elif k == "mcall" and node["method"] in ("append_with_retry", "append_by_key"):
+                n += 1
+                if not seen_refresh and bad is None:
+                    bad = (node, [A.text(c["cond"])[:60] + ":" + str(br) for c, br in p.conds if c.get("k") == "if"])
+    if n == 0:
+        ctx.anchor_missing(rid, "the append (append_with_retry) in forward_append")
+    elif bad:
+        ctx.violate(rid, "NodeController::forward_append", "no-lease-refresh-before-append", INTERNAL, bad[0]["line"],
+                    "forward_append can reach the append without having refreshed the leases from the applied metadata (path conditions: %s): a lease for a segment whose sealing "
+                    "this node has already applied stays trusted until the periodic lease tick, so an append routed by a lagging node is written into the sealed segment and "
+                    "acknowledged" % (bad[1] or "none"))
+    else:
+        ctx.ok(rid, "NodeController::forward_append", "leases are refreshed from the applied metadata on every path before the append (%d path(s))" % n, INTERNAL, fa["line"])
+
+
+def check_lease_critical_section(ctx, files, rid):
     b = files[BUCKET]
     try:
         abk = b.fn("append_by_key")
         lock = b.fn("lock", ctx="BucketGuard")
         ens = b.fn("ensure_lease")
         upd = b.fn("update_leases")
-        lfk = b.fn("lock_for_key")
     except A.AnchorMissingAst as e:
-        ctx.anchor_missing("C23.anchor", str(e))
-        return {"explanation": "anchor missing"}
+        ctx.anchor_missing(rid, str(e))
+        return
     for n_, f_ in (("Storage::append_by_key", abk), ("BucketGuard::lock", lock), ("Storage::ensure_lease", ens), ("Storage::update_leases", upd)):
         ctx.saw_fn(n_, BUCKET, len(list(A.walk(f_["body"]))))
     # ---- C23.1 -----------------------------------------------------------------------
@@ -58,12 +85,12 @@ def run(ctx):
     # does ensure_lease return while still holding the read guard? (it cannot: the guard is a local)
     ens_guard_local = any(st.get("k") == "let" and re.search(r"active_leases\.read\(\)\.await", A.text(st.get("init") or {})) for st in ens["body"]["stmts"])
     if idiom_a:
-        ctx.ok("C23.1", "BucketGuard::lock", "the lease read guard is held across the engine append", BUCKET, lock["line"])
+        ctx.ok(rid, "BucketGuard::lock", "the lease read guard is held across the engine append", BUCKET, lock["line"])
     elif idiom_b:
-        ctx.ok("C23.1", "BucketGuard::lock", "the lease is re-checked under the per-key mutex, which update_leases also takes", BUCKET, lock["line"])
+        ctx.ok(rid, "BucketGuard::lock", "the lease is re-checked under the per-key mutex, which update_leases also takes", BUCKET, lock["line"])
     else:
         order = "ensure_lease (statement %s) before the key mutex (statement %s)" % (idx_ensure, idx_lockowned) if idx_ensure is not None and idx_lockowned is not None else "?"
-        ctx.violate("C23.1", "BucketGuard::lock", "lease-check-outside-the-write-critical-section", BUCKET, lock["line"],
+        ctx.violate(rid, "BucketGuard::lock", "lease-check-outside-the-write-critical-section", BUCKET, lock["line"],
                     "the lease is tested in ensure_lease, whose read guard is a local that is released when it returns (%s), then the per-key mutex is taken and the engine is written; "
                     "update_leases only takes the lease set's write lock%s. Schedule: T1 passes ensure_lease for segment k; the node applies the rollover and the lease refresh removes "
                     "k; T1 takes the key mutex and appends into the sealed segment" % (order, "" if not upd_takes_key_lock else " (and a key mutex)"))
@@ -71,14 +98,33 @@ def run(ctx):
     tests = [n for n in A.walk(ens["body"]) if n.get("k") == "if" and "contains" in A.text(n["cond"])]
     rejects = [n for n in A.walk(ens["body"]) if A.is_macro(n, "bail") or (n.get("k") == "return" and "Err" in A.text(n.get("e") or {}))]
     if tests and rejects and A.text(tests[0]["cond"]).startswith("!"):
-        ctx.ok("C23.1", "Storage::ensure_lease", "a key that is not in the lease set is rejected", BUCKET, tests[0]["line"])
+        ctx.ok(rid, "Storage::ensure_lease", "a key that is not in the lease set is rejected", BUCKET, tests[0]["line"])
     else:
-        ctx.violate("C23.1", "Storage::ensure_lease", "lease-test-missing", BUCKET, ens["line"], "ensure_lease does not reject keys that are absent from the lease set")
+        ctx.violate(rid, "Storage::ensure_lease", "lease-test-missing", BUCKET, ens["line"], "ensure_lease does not reject keys that are absent from the lease set")
     # update_leases removes keys that are no longer expected
     if any(A.is_mcall(n, "retain") for n in A.walk(upd["body"])) or any(A.is_mcall(n, "clear") for n in A.walk(upd["body"])):
-        ctx.ok("C23.1", "Storage::update_leases", "leases that are no longer expected are dropped", BUCKET, upd["line"])
+        ctx.ok(rid, "Storage::update_leases", "leases that are no longer expected are dropped", BUCKET, upd["line"])
     else:
-        ctx.violate("C23.1", "Storage::update_leases", "stale-leases-kept", BUCKET, upd["line"], "update_leases never removes a lease: a sealed segment stays writable")
+        ctx.violate(rid, "Storage::update_leases", "stale-leases-kept", BUCKET, upd["line"], "update_leases never removes a lease: a sealed segment stays writable")
+
+
+def run(ctx):
+    for k, v in RULES.items():
+        ctx.rule(k, v)
+    files = A.load(ctx, [BUCKET, INTERNAL, CTRL])
+    b = files[BUCKET]
+    try:
+        abk = b.fn("append_by_key")
+        lock = b.fn("lock", ctx="BucketGuard")
+        ens = b.fn("ensure_lease")
+        upd = b.fn("update_leases")
+        lfk = b.fn("lock_for_key")
+    except A.AnchorMissingAst as e:
+        ctx.anchor_missing("C23.anchor", str(e))
+        return {"explanation": "anchor missing"}
+    for n_, f_ in (("Storage::append_by_key", abk), ("BucketGuard::lock", lock), ("Storage::ensure_lease", ens), ("Storage::update_leases", upd)):
+        ctx.saw_fn(n_, BUCKET, len(list(A.walk(f_["body"]))))
+    check_lease_critical_section(ctx, files, "C23.1")
     # ---- C23.2 -----------------------------------------------------------------------
     first = abk["body"]["stmts"][0] if abk["body"]["stmts"] else None
     if first is not None and first.get("k") == "let" and "BucketGuard::lock" in A.text(first.get("init") or {}) and first["pat"].strip() not in ("_",):
@@ -103,13 +149,7 @@ def run(ctx):
                     ctx.violate("C23.2", it["name"], "engine-write-outside-append_by_key", rel, n["line"], "%s writes the engine directly, bypassing the lease check" % it["name"])
     if n_writers >= 1:
         ctx.ok("C23.2", "distributed-walrus", "the only engine write is in Storage::append_by_key", BUCKET, abk["line"])
-    fa = files[INTERNAL].fn("forward_append")
-    ctx.saw_fn("NodeController::forward_append", INTERNAL, len(list(A.walk(fa["body"]))))
-    st0 = fa["body"]["stmts"][0]
-    if "update_leases" in A.text(st0.get("e") or st0.get("init") or {}):
-        ctx.ok("C23.2", "NodeController::forward_append", "leases are refreshed from the applied metadata before the append", INTERNAL, st0["line"])
-    else:
-        ctx.violate("C23.2", "NodeController::forward_append", "no-lease-refresh-before-append", INTERNAL, fa["line"], "forward_append does not refresh the leases before appending")
+    check_lease_refresh(ctx, files, "C23.2")
     ctx.assume("distributed-walrus cannot be type-checked offline: syntax-tree analysis of bucket.rs / controller; tokio RwLock/Mutex semantics assumed")
     ctx.assume("NOT decided: the gap between applying the rollover in the metadata state machine and the next lease refresh on other schedules")
     return {
